@@ -436,6 +436,16 @@ func oracleC04(c *oracleCtx) {
 			}
 		}
 	}
+	if c.tier != "replay" {
+		// characters at the edge of the lexer's classes between the tokens, seen by token observers
+		for _, src := range []string{"a\u00a0+\u00a0b", "let x\u00a0= 1\u00a0", "f(a,\u00a0\u00a0b)\n\u00a0c", "a\x0c+ b\x0b", "x =\t1\r\n\ufeffy", "a \u2028 b", "é + ü"} {
+			for _, tokI := range []int{1, 2, 3} {
+				su := parseSetup{tokI: tokI, stmtI: []int{0}, exprI: []string{"o0"}}
+				checkC04(c, su, src)
+				c.count(parseLineOf(su, src))
+			}
+		}
+	}
 	n := c.n(3000, 100000)
 	for i := 0; i < n && !c.expired(); i++ {
 		su := randC04Setup(c.r)
